@@ -642,8 +642,63 @@ def rejection_points(body):
         succ = body.succ(sb)
         # the rejecting side must actually lead to a rejection: the `unreachable` arm of an exhaustive match is neither side
         if any(s not in acc and s in canrej for s in succ) and any(s in acc for s in succ):
+            if _forwards_iterator_result(body, sb) or _is_propagation(body, sb):
+                continue
             n += 1
     return n
+
+
+def _is_propagation(body, sb):
+    """the switch is the `?` applied to a call's result: the rejection is the callee's, it moves with every extract / inline / loop <-> iterator rewrite"""
+    l = op_local(body.term(sb)["d"])
+    for _ in range(4):
+        if l is None:
+            return False
+        ds = body.defs().get(l, [])
+        if len(ds) != 1:
+            return False
+        d = ds[0]
+        if d[0] == "s" and d[3][0] == "discr":
+            l = d[3][1][0]
+            continue
+        if d[0] == "s" and d[3][0] == "use":
+            l = op_local(d[3][1])
+            continue
+        if d[0] == "call":
+            return bool(re.search(r"Try>::branch$", callee(d[3]) or ""))
+        return False
+    return False
+
+
+_ITER_CONSUMER = re.compile(r"^(core|std)::iter::.*::(try_for_each|try_fold|try_rfold|collect|try_collect|sum|product|all|any|find|find_map|position)$")
+
+
+def _forwards_iterator_result(body, sb):
+    """the switch is the `?` on the result of `iter.try_for_each(closure)` / `.collect::<Result<..>>()`: it only forwards what the closure rejects, and it
+    disappears when the closure is rewritten as a `for` loop (and appears when a loop becomes an iterator chain)"""
+    l = op_local(body.term(sb)["d"])
+    seen = 0
+    while l is not None and seen < 6:
+        seen += 1
+        ds = body.defs().get(l, [])
+        if len(ds) != 1:
+            return False
+        d = ds[0]
+        if d[0] == "s" and d[3][0] == "discr":
+            l = d[3][1][0]
+            continue
+        if d[0] == "s" and d[3][0] == "use":
+            l = op_local(d[3][1])
+            continue
+        if d[0] == "call":
+            n = callee(d[3]) or ""
+            if re.search(r"Try>::branch$", n) and d[3]["args"]:
+                l = op_local(d[3]["args"][0])
+                continue
+            names = callee_names(d[3])
+            return any(_ITER_CONSUMER.search(x or "") for x in names) or bool(_ITER_CONSUMER.search(n))
+        return False
+    return False
 
 
 def _can_reach(body, targets):
@@ -707,6 +762,7 @@ def guard_profile(body):
             succ = body.succ(sb)
             if any(s not in acc and s in canrej for s in succ) and any(s in acc for s in succ):
                 rejecting.add(sb)
+    forwarders = {sb for sb in rejecting if _forwards_iterator_result(body, sb)}
     pdom = postdominators(body)
     # control dependence: x depends on s iff some successor t of s has x in pdom[t] (or x == t) and x does not strictly postdominate s
     cd = {}
@@ -720,8 +776,16 @@ def guard_profile(body):
                 if x != s and x in pdom[s]:
                     continue
                 cd.setdefault(x, set()).add(s)
+    # the test that ends a loop ("is there another element?") is not a condition under which a check is skipped: a closure handed to
+    # `try_for_each` has no such test, the same body written as a `for` loop has one
+    loop_exit = set()
+    for s in switches:
+        r = body.reachable(s)
+        in_cycle = any(s in body.reachable(x) for x in body.succ(s))
+        if in_cycle and any(s not in body.reachable(x) for x in body.succ(s) if x in reach):
+            loop_exit.add(s)
     out = []
-    for d in sorted(rejecting):
+    for d in sorted(rejecting - forwarders):
         seen, st, guards = set(), [d], set()
         while st:
             x = st.pop()
@@ -729,6 +793,10 @@ def guard_profile(body):
                 if s in seen or s == d:
                     continue
                 seen.add(s)
+                if s in loop_exit:
+                    # do not look through the loop test: what it depends on (the checks of the previous iteration) is an artefact of
+                    # iterating, not a condition for this check
+                    continue
                 if s not in rejecting:
                     guards.add(s)
                 st.append(s)
@@ -814,3 +882,48 @@ def influence_roots(body, local, max_steps=4000):
                     for x in operand_locals(body.term(sw)["d"]):
                         work.append(x)
     return roots
+
+
+
+# ------------------------------------------------------------------ "this function was refactored by extraction": not comparable with the reference tree
+_KNOWN = None
+WORKSPACE = ("arrow_", "parquet")
+
+
+def known_functions():
+    global _KNOWN
+    if _KNOWN is None:
+        import json, os
+        p = os.path.join(os.path.dirname(__file__), "tables", "known_functions.json")
+        _KNOWN = set(json.load(open(p))) if os.path.exists(p) else set()
+    return _KNOWN
+
+
+def calls_new_function(F, fn):
+    """does `fn` (or one of its closures) call a workspace function that did not exist on the reference tree?  Extracting a block into a new helper moves
+    operands, checks and must-pass calls into that helper: the ratchets (which compare one function with its former self) then have nothing to compare."""
+    known = known_functions()
+    if not known:
+        return False
+    crate = F.crate(fn["id"].lstrip("<").split("::", 1)[0])
+    root = fn
+    while root.get("parent"):
+        root = F.fn(root["parent"], required=False) or {}
+    if not root:
+        return False
+    fns, i = [root], 0
+    while i < len(fns):
+        fns += [c for c in crate.closures_of.get(fns[i]["id"], []) if "mir" in c]
+        i += 1
+    for f in fns:
+        if "mir" not in f:
+            continue
+        for _, t in Body(f).calls():
+            n = callee(t) or ""
+            head = n.lstrip("<").split("::", 1)[0]
+            if not head.startswith(WORKSPACE):
+                continue
+            g = F.resolve(n)
+            if g is not None and g["kind"] != "Closure" and norm(g["id"]) not in known:
+                return True
+    return False
